@@ -273,6 +273,46 @@ func c20Concurrent(p c20Params) Scenario {
 	}})
 }
 
+// c20TwoLoggers: two Logger values (two servers in one process) are filtered at the
+// same time, with schedules down to the level of single memory accesses: each Filter
+// returns the entries of its own logger.
+func c20TwoLoggers(n, entries, P int) Scenario {
+	var gotA, gotB, wantA, wantB []int
+	name := fmt.Sprintf("two-loggers capacity=%d entries=%d filtered at once (access-level schedules)", n, entries)
+	body := func() {
+		vs.EnableHBFine()
+		gotA, gotB, wantA, wantB = nil, nil, nil, nil
+		la, lb := go9p.NewLogger(n), go9p.NewLogger(n)
+		for i := 1; i <= entries; i++ {
+			la.Log(c20Data(i), c20Owners[1], 1)
+			lb.Log(c20Data(100+i), c20Owners[2], 2)
+			wantA = append(wantA, i)
+			wantB = append(wantB, 100+i)
+		}
+		vs.Idle()
+		if len(wantA) > n {
+			wantA, wantB = wantA[len(wantA)-n:], wantB[len(wantB)-n:]
+		}
+		vs.Window(true)
+		vs.Go("filterer", func() { gotA = idsOf(la.Filter(nil, 0)) })
+		vs.Go("filterer", func() { gotB = idsOf(lb.Filter(c20Owners[2], 0)) })
+		vs.Idle()
+		vs.Window(false)
+	}
+	check := stdCheck("C20", func(x *vs.Exec) *Viol {
+		for _, g := range x.Parked {
+			if g.Site == "filterer" {
+				return &Viol{Sig: "C20/blocked/" + g.Site, Msg: fmt.Sprintf("a Filter call is blocked for ever in %s (parked %v)", g.Op, x.Parked)}
+			}
+		}
+		if !eqInts(gotA, wantA) || !eqInts(gotB, wantB) {
+			return &Viol{Sig: "C20/two-loggers/filter-returns-foreign-or-missing-entries", Msg: fmt.Sprintf("two loggers filtered at the same time: the first holds %v and returned %v, the second holds %v and returned %v", wantA, gotA, wantB, gotB)}
+		}
+		return nil
+	}, nil)
+	return vsScenario(&VsSpec{Name: name, Body: body, Check: check, P: P})
+}
+
 func c20Scenarios(tier string) []Scenario {
 	var out []Scenario
 	caps := []int{1, 2, 3, 4}
@@ -306,6 +346,7 @@ func c20Scenarios(tier string) []Scenario {
 			out = append(out, c20Concurrent(c20Params{N: n, Producers: []int{3, 3}, Filters: 2, P: 3}))
 		}
 	}
+	out = append(out, c20TwoLoggers(2, 2, 1), c20TwoLoggers(3, 5, 1))
 	// more entries than the logger's 16-slot queue
 	out = append(out, c20Concurrent(c20Params{N: 3, Producers: []int{20}, Filters: 2, P: 1}))
 	return out
